@@ -255,7 +255,8 @@ def init2022 (C : Crypto) (ctx : Ctx) (env : DecEnv) (d : Dec) (b : Bytes) : Fr.
   let requireEih := s.mode = .server ∧ ctx.kind.supportEih ∧ ctx.users.length > 0
   let eihLen := if requireEih then 16 else 0
   let headerLen := eihLen + 1 + 8 + requestSaltLen + 2 + 16
-  if b.length < n + headerLen then .fail d 0 else
+  if b.length < n then .need else       -- `init_payload_decoder` waits for the salt …
+  if b.length < n + headerLen then .fail d 0 else   -- … but the fixed header must come with it
   let salt := b.take n
   if env.saltSeen salt then .fail d 0 else
   let s := { s with requestSalt := some salt }
